@@ -18,6 +18,10 @@ def openMachine (args : List String) (hin hout : IO.FS.Stream) : Option (IO Bool
     let pd ← pd.toNat?
     let qd ← qd.toNat?
     some (serve (numPacketFifo pd qd) hin hout)
+  | ["packetfifo_buffered", pd, qd] => do
+    let pd ← pd.toNat?
+    let qd ← qd.toNat?
+    some (serve (numPacketFifoBuffered pd qd) hin hout)
   | ["arbiter", n] => n.toNat?.map fun n => serve (numArbiter n) hin hout
   | ["dispatcher", m, oh] => do
     let m ← m.toNat?
